@@ -192,7 +192,9 @@ def gen_asset_rows(rng, asset, exchanges, holders, flags, start_year):
 
     last_kind = [None]
     # few distinct prices: equal spot prices on different lots (ranking ties of price-based methods, equal sort keys)
-    price_pool = [_price(rng) for _ in range(rng.choice([1, 2, 3]))] if flags.get("few_prices") else None
+    # (whale-sized amounts only ever meet micro prices: RP2's decimal context is designed for values below a quintillion - 18 integer
+    # digits -, and 9e12 units at 24 000 apiece add up past that)
+    price_pool = [_price(rng, micro=(style == "big")) for _ in range(rng.choice([1, 2, 3]))] if flags.get("few_prices") else None
 
     def price_of():
         if price_pool and rng.random() < 0.8:
